@@ -22,16 +22,20 @@ Record gbranch := {
 Definition is_file_mode (m : gmode) : bool :=
   match m with GRegular | GExec | GSymlink => true | _ => false end.
 
-(** ---------- the tree walk of CollectFiles: go-git's object.TreeWalker (plumbing/object/tree.go), recursive mode, with
-    the [seen] map the caller hands over.  A tree object = the forest of its entries (name, mode, hash, and for a directory
-    the forest of the tree object [GetTree(entry.Hash)] returns).  Hashes are plain annotations: nothing forces them to
-    differ, so "the same tree object at several paths" (equal hashes, equal forests) is one of the quantified cases.
+(** ---------- the tree walk of CollectFiles.  A tree object = the forest of its entries (name, mode, hash, and for a
+    directory the forest of the tree object [object.GetTree(storer, entry.Hash)] returns).  Hashes are plain annotations:
+    nothing forces them to differ, so "the same tree object at several paths" (equal hashes, equal forests) is one of the
+    quantified cases.
 
-    TreeWalker.Next's loop is run one iteration per unit of fuel ([tw_step]); the walker state is go-git's: the stack of
-    entry iterators (remaining entries of each open tree), [base] (a string, restored with path.Split + TrimSuffix when
-    a tree is finished) and [seen].  CollectFiles passes make(map[plumbing.Hash]bool) and neither it nor the walker ever
-    writes to it: [tw_seen] is constant along a run and [] in [tree_entries]; [tw_step] reads it exactly where Next does
-    (`if w.seen[entry.Hash] { continue }` — for EVERY entry, blob or tree, before the entry is returned). *)
+    Current code (after the repairs 8664339 and 39be1f9): RepoWalker.walkTree, an own recursion over tree.Entries
+    ([walk_forest]: entry handed to handleEntry, then — for a directory — the depth test and the recursion); no seen set, no
+    judgement of names.
+    Code before the repairs: go-git's object.TreeWalker in recursive mode with the [seen] map the caller hands over
+    ([tw_step]/[tw_run]/[tree_entries_before_fix], kept for the _refuted_before_fix theorems).  TreeWalker.Next's loop is run
+    one iteration per unit of fuel; the walker state is go-git's: the stack of entry iterators (remaining entries of each open
+    tree), [base] (a string, restored with path.Split + TrimSuffix when a tree is finished) and [seen].  CollectFiles passed
+    make(map[plumbing.Hash]bool) and neither it nor the walker ever wrote to it: [tw_seen] is constant along a run;
+    [tw_step] reads it exactly where Next does (`if w.seen[entry.Hash] { continue }` — for EVERY entry, blob or tree). *)
 Inductive gnode := GNode (m : gmode) (h : N) (ch : gforest)
 with gforest := GNil | GCons (name : bytes) (n : gnode) (r : gforest).
 
@@ -119,8 +123,25 @@ with forest_size (f : gforest) : nat := match f with GNil => 0 | GCons _ n r => 
 
 Definition walk_fuel (root : gforest) : nat := forest_size root + 2.
 
-(** what CollectFiles sees of a branch tree: the walk with the empty, never written [seen] map *)
-Definition tree_entries (root : gforest) : outcome (list gentry) := tw_run (walk_fuel root) (tw_init root []).
+(** what CollectFiles saw of a branch tree before the repairs: the walk with the empty, never written [seen] map *)
+Definition tree_entries_before_fix (root : gforest) : outcome (list gentry) := tw_run (walk_fuel root) (tw_init root []).
+
+(** RepoWalker.walkTree(t, base, depth, fn) of the current code: `if depth > maxTreeDepth` is tested on entry of every call
+    (never true for the root call, depth 0); Err 1 = the "more than 1024 nested directories" error, which CollectFiles returns *)
+Fixpoint walk_forest (depth : nat) (base : bytes) (f : gforest) : outcome (list gentry) :=
+  match f with
+  | GNil => Ok []
+  | GCons name (GNode m h ch) r =>
+      let full := simple_join base name in
+      do below <- match m with
+                  | GDir => if max_tree_depth <? S depth then Err 1 else walk_forest (S depth) full ch
+                  | _ => Ok []
+                  end;
+      do rest <- walk_forest depth base r;
+      Ok ({| ge_path := full; ge_mode := m; ge_id := h |} :: below ++ rest)
+  end.
+
+Definition tree_entries (root : gforest) : outcome (list gentry) := walk_forest 0 [] root.
 
 (** reference: every path of the tree, a directory before its content, in tree order (= `git ls-tree -r -t`) *)
 Fixpoint node_paths (base name : bytes) (n : gnode) : list gentry :=
@@ -326,6 +347,6 @@ Definition c14g_ok (c : c14gcase) : bool :=
       | Ok d => gms_eqb (map as_stored d) (map mk_gdoc docs_b)
       | _ => false
       end
-  | _ => false          (* the walk does not end (ErrMaxTreeDepth): IndexGitRepo would not have returned *)
+  | _ => false          (* more than 1024 nested directories: IndexGitRepo returns an error, no documents to compare *)
   end.
 Definition c14g_mismatches (cs : list c14gcase) : list N := bad_indexes c14g_ok cs.
